@@ -78,8 +78,15 @@ def main():
                 return getattr(mod, name)
         raise LookupError(name)
 
+    pool = {}
+
     def build(mods, e):
         k = e[0]
+        if k == "let":           # remember the built object for later operations of this history
+            pool[e[1]] = build(mods, e[2])
+            return pool[e[1]]
+        if k == "ref":           # the SAME Python object again
+            return pool[e[1]]
         if k == "attr":
             return getattr(find_cls(mods, e[1]), e[2])
         if k == "call":
@@ -144,6 +151,7 @@ def main():
     for hist in job["histories"]:
         while True:
             mods = load()
+            pool.clear()
             res, restart = [], False
             for i, op in enumerate(hist):
                 r = play(mods, op, i)
